@@ -1,32 +1,54 @@
 CHECK = {
     "level": "exploration",
-    "rule": ("lattice enumeration (E4) of the real FieldPropagator/FieldDriver/steppers: geometry "
-             "(5 orangeinp-built geometries with analytic regions) x (stepper, field) x charge x "
-             "gyroradius/scale (1e-4..1e4) x driver options x start configuration (interior lattice "
-             "x 26 directions, near-boundary tangent family, on-boundary after linear move+cross "
-             "with optional set_dir) x requested step (7 values from 0.5*minimum_step to 1e3 radii) "
-             "x subdivision k in {1,2,5}; every propagation is judged by range, flag trichotomy "
-             "(+ documented bump), analytic point membership, long-double analytic helix and 32 "
-             "helix samples for skipped volumes. non-trivial = a trajectory that reached something "
-             "other than 'full step off-boundary' (distinct by geometry, stepper/field, options, "
-             "radius index, start kind and the set of loop branches reached). Values between lattice "
-             "points are not covered."),
+    "rule": ("lattice enumeration (E4) of the real FieldPropagator/FieldDriver/steppers through "
+             "make_mag_field_propagator: geometry (5 orangeinp-built geometries whose volumes are also "
+             "written down analytically: box in box, concentric spheres, cylinder shell, box minus "
+             "cylinder, rotated+translated daughter universe) x (stepper in {DormandPrince, RK4, ZHelix}, "
+             "field in {uniform x/z/oblique at 1 mT/1 T/100 T, UniformZField, RZ map with uniform and "
+             "with smooth non-uniform content}) x charge x gyroradius/scale (9 decades 1e-4..1e4) x "
+             "driver options (default, tight, loose, max_substeps 1/100, max_nsteps 3, step-control "
+             "exponents) x start configuration (generic interior lattice x 26 directions; near-boundary "
+             "tangent family h in {5e-7,5e-5,2e-2} x side x angle in {0,+-1e-9,+-1e-6,+-1e-3}; head-on from "
+             "within minimum_step..delta_intersection; ON a boundary after linear move + cross with "
+             "incidence {0,60,86 deg} and optional set_dir to {1e-3,1e-6,1e-9,-1e-6,0.7} rad off tangent) x "
+             "requested step (0.5*minimum_step, minimum_step, 3*delta_intersection, {1e-3,1,10,1e3} radii) "
+             "x subdivision k in {1,2,5} consecutive calls, crossing boundaries as they are hit. Every "
+             "call is judged by: distance in (0, step(1+1e-12)]; particle momentum unchanged, |dir|=1; "
+             "exactly one of full-step/looping/boundary (+ documented bump), result.boundary == "
+             "geo.is_on_boundary(), volume unchanged; analytic membership of the end point; end point and "
+             "end direction on the long-double analytic helix (uniform fields), per call and cumulatively; "
+             "32 helix samples for skipped volumes. non-trivial = a trajectory that reached something "
+             "other than 'one full step off-boundary' (distinct by geometry, stepper/field, options, "
+             "radius, start kind and the set of loop/driver branches reached, observed through a "
+             "forwarding track-view and a counting stepper). Values between lattice points are not covered."),
     "assumptions": [
         "host build, ORANGE geometry, double precision, CGS/gauss units (checked at start-up)",
-        "the analytic helix uses kappa = 1e-12*c [1/(gauss cm MeV/c)] and the long-double momentum "
-        "recomputed from the double kinetic energy handed to the library",
-        "helix tolerance = eps_rel_max*D + 2*minimum_step/call + delta_intersection/call + "
-        "per-landing term (see helix_tolerance comment in the harness); the eps term reads the "
-        "driver's documented 'relative error' as error per unit path length",
-        "bump after a stuck start on a boundary is accepted as the documented degenerate outcome",
+        "analytic helix: kappa = 1e-12*c [1/(gauss cm MeV/c)], long-double momentum recomputed from the "
+        "double kinetic energy handed to the library",
+        "helix position tolerance per call = eps_rel_max*(1+2N)*D + 2*minimum_step + delta_intersection "
+        "+ per-landing term + 1e-12 rounding, N = counted stepper applications; direction tolerance = "
+        "eps_rel_max*(1+N)*(1+D/R) + (arc slack)/R; derivation in the harness (TOLERANCE MODEL). The "
+        "embedded error estimates are assumed to bound the true local error, hence eps_rel_max <= 1e-3 in "
+        "all option sets",
+        "the 'bump' after a stuck start on a boundary is the documented degenerate outcome: accepted, and "
+        "the trajectory is not followed further",
+        "a set_dir on a boundary closer to the tangent plane than double precision can resolve "
+        "(R*theta^2/2 < 1e-13 cm) is treated as exact tangency (measure zero) and skipped",
+        "interior lattice points have generic coordinates (no rays exactly through edges/corners or exactly "
+        "tangent to curved surfaces: those belong to the navigation property C03)",
+        "ZHelixStepper is enumerated only inside the configuration of its unit test (gyration centre on "
+        "the z axis, positive helicity, dir_y != 0, up to the first boundary landing); the four ways of "
+        "leaving it are exercised once each (case ids zhx=1..4) and reported",
     ],
-    "bounds": {"quick": {"fields_per_stepper": 6, "start_cfgs": "checkerboard half",
-                         "options": 6, "ratios": 9, "steps": 7, "k": [1, 2, 5]},
-               "thorough": {"fields_per_stepper": 12, "start_cfgs": "all", "options": 7,
-                            "ratios": 9, "steps": 7, "k": [1, 2, 5]}},
+    "bounds": {"quick": {"stepper_field_pairs": 13, "options": 6, "ratios": 9, "steps": 7, "k": [1, 2, 5],
+                         "thinning": "checkerboard half of (interior point, direction), of (start, step) "
+                                     "and of (radius, options, charge); 5 tangent angles"},
+               "thorough": {"stepper_field_pairs": 26, "options": 7, "ratios": 9, "steps": 7,
+                            "k": [1, 2, 5],
+                            "thinning": "checkerboard half of (start, step) only; 7 tangent angles"}},
     "parts": [
         {"name": "field", "harness": "c08_field", "flavour": "rel",
-         "shards": {"quick": 16, "thorough": 16}, "deadline": {"quick": 150, "thorough": 1300}},
+         "shards": {"quick": 16, "thorough": 16}, "deadline": {"quick": 300, "thorough": 2400}},
     ],
 }
 
@@ -34,11 +56,17 @@ META = {
     "engine": "E4 lattice enumerator (harness/c08_field.cc)",
     "design_ref": "DESIGN.md section 3, C08",
     "technique": "bounded-exhaustive enumeration of a finite input/configuration lattice of the real "
-                 "field propagation code with independent analytic oracles (helix, point membership)",
-    "text": ("Every element of the stated lattice is executed through make_mag_field_propagator on "
-             "ORANGE geometries built in the harness; the oracle is an analytic long-double helix and "
-             "analytic solid membership written next to the geometry definition. No sampling."),
-    "note": ("Trusts: the analytic region descriptions (cross-checked against the navigator at the "
-             "interior lattice points at start-up) and the tolerance model derived from "
-             "FieldDriverOptions."),
+                 "field propagation code with independent analytic oracles (long-double helix, analytic "
+                 "solid membership)",
+    "text": ("Every element of the stated lattice is executed through the real make_mag_field_propagator / "
+             "FieldPropagator / FieldDriver / steppers on ORANGE geometries built in the harness; the oracle "
+             "is an analytic long-double helix and analytic solid membership written next to the geometry "
+             "definition. No sampling. Bounded: finite alphabets for every argument; nothing is claimed "
+             "between lattice points."),
+    "note": ("Trusts: the analytic region descriptions (cross-checked against the navigator at every "
+             "interior lattice point at start-up), the tolerance model derived from FieldDriverOptions, and "
+             "that counting stepper applications through make_field_propagator is equivalent to "
+             "make_mag_field_propagator (checked bit-for-bit on every k=1 call). Wall times were measured "
+             "on a machine shared with ~8x oversubscription; CPU cost is ~340 s (quick) / ~2400 s (thorough) "
+             "in total over 16 shards."),
 }
